@@ -11,8 +11,11 @@
    strictly monotone in the ticks for a constant boot time, so the [<=] tests of the
    code are modelled on ticks (float layer trusted, see notes).
 
-   The three booleans of [fixes] select the proposed repairs
-   (notes/fixes/C05-*.diff); all false = the code as it is now in /repo. *)
+   The three booleans of [fixes] stand for the three repairs found with this check and
+   committed to /repo (6afb079 children() never returns the caller, 3959fba parent()
+   checks the caller's identity first, e202d3b parents() keeps a seen set):
+   [as_is] (all true) = the code as it is now, [before_fixes] = the code before them
+   (kept so that the old defects stay stated, and reverting a repair is modelled). *)
 From PV Require Export Base.Prelude.
 
 Record kproc := { kp_pid : Z; kp_ppid : Z; kp_start : Z }.
@@ -21,7 +24,8 @@ Definition table := list kproc.
 Record fixes := { fx_skip_self : bool;       (* children(): never yield the caller itself *)
                   fx_parents_seen : bool;    (* parents(): stop at the first repeated PID *)
                   fx_parent_reuse : bool }.  (* parent(): identity pre-check before the lowest-PID stop *)
-Definition as_is : fixes := {| fx_skip_self := false; fx_parents_seen := false; fx_parent_reuse := false |}.
+Definition as_is : fixes := {| fx_skip_self := true; fx_parents_seen := true; fx_parent_reuse := true |}.
+Definition before_fixes : fixes := {| fx_skip_self := false; fx_parents_seen := false; fx_parent_reuse := false |}.
 
 (* the caller: a Process object created earlier.  [o_ident] = start ticks read by
    _get_ident() when it was created; [o_ctime] = the create_time() cache
